@@ -343,7 +343,7 @@ def stage_kani(scratch, cfiles, extra_tests=None):
             if extra_tests and cf.path.name in extra_tests:
                 extra = "\n" + extra_tests[cf.path.name] + "\n"
             tail += ("\n// ==== appended by /verif from contracts/kani/%s ====\n#[cfg(kani)]\n"
-                     "#[allow(warnings, clippy::all)]\nmod verif_kani_%s {\n    use super::*;\n%s\n%s}\n"
+                     "#[allow(warnings, clippy::all)]\npub(crate) mod verif_kani_%s {\n    use super::*;\n%s\n%s}\n"
                      % (cf.path.name, cf.tag, body, extra))
         f.write_bytes(orig + tail.encode())
         staged = f.read_bytes()
